@@ -18,7 +18,7 @@ RULE = ("(1) schedules: the same data directory is run with RAYON_NUM_THREADS in
         "seeded with stale *.tmp files, earlier results under the same and other names) and one data directory (index reopened up to 10 "
         "times): results unchanged, SHA-256 of blk*.dat/xor.dat and the key/value dump of the index identical before/after, strace spec "
         "'no open-for-write/unlink/rename/truncate on blk*.dat or xor.dat'. (3) thorough: ThreadSanitizer build over the parallel "
-        "workload and a build without the verif feature compared with the hooked build on all five callbacks. (4) suspended runs: the process is stopped (SIGSTOP) for more than 10 s while it delivers blocks, so the time-driven progress report of the driver runs; results must equal the undisturbed run and the model. Schedule chains contain twins of the record-setting transaction (ties for biggest value / size). (5) concurrent instances: instance B (another data directory and dump folder, same cwd / TMPDIR / HOME) runs completely while instance A is stopped in mid-run; both results must equal their models. distinct = distinct schedules (thread->task maps) + (history kind, callback) signatures")
+        "workload and a build without the verif feature compared with the hooked build on all five callbacks. (4) suspended runs: the process is stopped (SIGSTOP) for more than 10 s while it delivers blocks, so the time-driven progress report of the driver runs; results must equal the undisturbed run and the model. Schedule chains contain twins of the record-setting transaction (ties for biggest value / size). (5) concurrent instances: instance B (another data directory and dump folder, same cwd / TMPDIR / HOME) runs completely while instance A is stopped in mid-run; both results must equal their models. Environment variants include stdout on a (raw) pseudo terminal; recurring payloads contain control characters. distinct = distinct schedules (thread->task maps) + (history kind, callback) signatures")
 
 THREADS = [1, 2, 3, 8, 16, 64]
 
